@@ -28,10 +28,12 @@ pub fn pool() -> Vec<Val> {
     let mut v = Vec::new();
     for i in [
         0i64, 1, -1, 2, 3, 7, -2, 62, 63, 64, 65, 127, 128, 255, 256, 1 << 31, -(1 << 31), i64::MIN, i64::MIN + 1, i64::MAX, i64::MAX - 1,
+        // integers that no double holds exactly, next to the doubles they round to
+        (1 << 53) + 1, (1 << 53) - 1, -((1 << 53) + 1), (1 << 62) + 1,
     ] {
         v.push(Val::Int(i));
     }
-    for f in [0.0f64, -0.0, 1.0, 1.5, -1.5, f64::INFINITY, f64::NEG_INFINITY, f64::NAN, 9007199254740992.0, 9223372036854775808.0, 1e308] {
+    for f in [0.0f64, -0.0, 1.0, 1.5, -1.5, f64::INFINITY, f64::NEG_INFINITY, f64::NAN, 9007199254740992.0, 9223372036854775808.0, 1e308, -9007199254740992.0, 4611686018427387904.0, 9007199254740994.0] {
         v.push(Val::Float(f));
     }
     for b in [0u8, 1, 127, 128, 255] {
@@ -285,7 +287,54 @@ fn check_same(ctx: &mut Ctx, section: &str, op: &str, a: &Val) -> Vec<Violation>
     out
 }
 
+/// two prefix operators in a row: the inner result (or its error) feeds the outer one
+fn check_un2(ctx: &mut Ctx, section: &str, outer: &str, inner: &str, a: &Val, spaced: bool) -> Vec<Violation> {
+    let text = if spaced { format!("{} {}({})", outer, inner, lit(a)) } else { format!("{}({}({}))", outer, inner, lit(a)) };
+    guard(section, "src", &text);
+    let expect = match ops::unop(inner, a) {
+        ops::Expect::Is(v) => ops::unop(outer, &v),
+        ops::Expect::Error => ops::Expect::Error,
+        _ => return vec![],
+    };
+    ctx.case(hash_str(&text), true);
+    let case = json!({"op": outer, "inner": inner, "a": a, "spaced": spaced});
+    let mut out = Vec::new();
+    match outcome_of(&text) {
+        Ok(got) => {
+            if !ops::satisfies(&expect, &got) {
+                out.push(Violation::new(section, format!("unop2:{}{}:{}:{}", outer, inner, a.kind(), class_of(&expect, &got)), format!("`{}`: expected {}, got {}", text, ops::show_expect(&expect), show_got(&got)), case));
+            }
+        }
+        Err(e) if e.starts_with("PANIC ") => {
+            let sig = e[6..].split('|').take(3).collect::<Vec<_>>().join("|");
+            out.push(Violation::new(section, sig, format!("`{}`: got a crash: {}", text, e), case));
+        }
+        Err(e) => ctx.infra(format!("C09 harness: `{}` did not run: {}", text, e)),
+    }
+    out
+}
+
 pub fn run(ctx: &mut Ctx) {
+    {
+        let pool = pool();
+        let mut k = 1u64 << 40;
+        for outer in ops::UNOPS {
+            for inner in ops::UNOPS {
+                for a in &pool {
+                    for spaced in [false, true] {
+                        k += 1;
+                        if !ctx.mine(k) {
+                            continue;
+                        }
+                        ctx.class("table:double-unary");
+                        for v in check_un2(ctx, "table", outer, inner, a, spaced) {
+                            ctx.report(v);
+                        }
+                    }
+                }
+            }
+        }
+    }
     {
         let pool = pool();
         let mut k = 0u64;
@@ -381,7 +430,9 @@ pub fn replay(section: &str, case: &Value, ctx: &mut Ctx) {
         Ok(v) => v,
         Err(_) => return ctx.infra("C09 replay: bad case"),
     };
-    let vs = if case.get("same").is_some() {
+    let vs = if case.get("inner").is_some() {
+        check_un2(ctx, section, case["op"].as_str().unwrap_or("-"), case["inner"].as_str().unwrap_or("-"), &a, case["spaced"].as_bool().unwrap_or(false))
+    } else if case.get("same").is_some() {
         check_same(ctx, section, case["op"].as_str().unwrap_or("=="), &a)
     } else if case.get("law").is_some() {
         let b: Val = serde_json::from_value(case["b"].clone()).unwrap_or(Val::Null);
